@@ -123,7 +123,8 @@ func (x *rollWorld) fair() {
 			x.Sim.Edit(k, kit.NS(o), kit.Name(o), func(c map[string]interface{}) {
 				c["status"] = map[string]interface{}{
 					"observedGeneration": gen,
-					"conditions":         []interface{}{map[string]interface{}{"type": "Ready", "status": "True"}},
+					// as on a Pod, the checked condition is not the first one in the list
+					"conditions": []interface{}{map[string]interface{}{"type": "Initialized", "status": "True"}, map[string]interface{}{"type": "Ready", "status": "True"}, map[string]interface{}{"type": "Scheduled", "status": "True"}},
 				}
 			})
 		}
